@@ -6,33 +6,33 @@
 #[test]
 fn kani_concrete_playback_mutc_offbyone_int_arb_cbmc() {
     let concrete_vals: Vec<Vec<u8>> = vec![
-        vec![1],
-        vec![254],
-        vec![254],
-        vec![254],
-        vec![254],
-        vec![254],
-        vec![254],
-        vec![254],
-        vec![254],
-        vec![1],
-        vec![1],
-        vec![1],
-        vec![1],
-        vec![1],
-        vec![1],
-        vec![1],
-        vec![1],
-        vec![1],
-        vec![1],
-        vec![1],
-        vec![1],
-        vec![1],
-        vec![1],
-        vec![1],
-        vec![24, 0, 0, 0, 0, 0, 0, 0],
+        vec![0],
+        vec![0],
+        vec![0],
+        vec![0],
+        vec![0],
+        vec![0],
+        vec![0],
+        vec![0],
+        vec![0],
+        vec![0],
+        vec![0],
+        vec![0],
+        vec![0],
+        vec![0],
+        vec![0],
+        vec![0],
+        vec![0],
+        vec![0],
+        vec![0],
+        vec![0],
+        vec![0],
+        vec![0],
+        vec![0],
+        vec![0],
+        vec![16, 0, 0, 0, 0, 0, 0, 0],
         vec![0, 0, 0, 128],
-        vec![255, 255, 255, 255, 255, 255, 239, 63]
+        vec![0, 0, 0, 0, 0, 0, 0, 32]
     ];
     kani::concrete_playback_run(concrete_vals, mutc_offbyone_int_arb);
 }
